@@ -43,7 +43,7 @@ Proof.
 Qed.
 
 Lemma bv_get_slice x off w i : bv_get (bv_slice x off w) i = if i <? w then bv_get x (off + i) else BX.
-Proof. unfold bv_slice. apply bv_get_build. Qed.
+Proof. unfold bv_slice. rewrite bv_get_build. reflexivity. Qed.
 
 Lemma piece_input x y off w :
   rewire_piece (Some x :: y) (mk_range w (RW_INPUT 0 off)) = bv_slice x off w.
@@ -65,7 +65,7 @@ Lemma bv_val_app x y :
                     end.
 Proof.
   induction x as [|c r IH]; cbn [app length].
-  - simpl bv_val at 2. destruct (bv_val y); [f_equal; simpl; lia | reflexivity].
+  - simpl bv_val at 2. destruct (bv_val y); [f_equal; change (N.of_nat 0) with 0%N; rewrite N.pow_0_r; lia | reflexivity].
   - rewrite !bv_val_cons, IH.
     replace (N.of_nat (S (length r))) with (N.succ (N.of_nat (length r))) by lia.
     rewrite N.pow_succ_r'.
@@ -130,7 +130,7 @@ Proof. rewrite Nat2Z.inj_succ, Z.pow_succ_r by lia. reflexivity. Qed.
 
 Lemma sint_unfold w v :
   sint (S w) v = if (v <? 2 ^ N.of_nat w)%N then Z.of_N v else Z.of_N v - 2 ^ Z.of_nat (S w).
-Proof. unfold sint. cbn [Nat.eqb]. replace (S w - 0)%nat with (S w) by lia. cbn [Nat.sub]. rewrite Nat.sub_0_r. reflexivity. Qed.
+Proof. unfold sint. cbn [Nat.eqb]. replace (S w - 1)%nat with w by lia. reflexivity. Qed.
 
 Lemma sint_bounds w v :
   (0 < w)%nat -> (v < 2 ^ N.of_nat w)%N -> - 2 ^ Z.of_nat (w - 1) <= sint w v < 2 ^ Z.of_nat (w - 1).
@@ -138,7 +138,7 @@ Proof.
   intros Hw Hv. destruct w as [|w]; [lia|]. rewrite sint_unfold. cbn [Nat.sub]. rewrite Nat.sub_0_r.
   assert (E : Z.of_N (2 ^ N.of_nat (S w)) = 2 * 2 ^ Z.of_nat w) by (rewrite of_N_pow2; apply pow2_Z_succ).
   pose proof (pow2_Z_pos w) as P. pose proof (of_N_pow2 w) as E2.
-  destruct (N.ltb_spec v (2 ^ N.of_nat w)) as [L|L]; rewrite pow2_Z_succ; lia.
+  destruct (N.ltb_spec v (2 ^ N.of_nat w)) as [L|L]; rewrite ?pow2_Z_succ; lia.
 Qed.
 
 Lemma sint_mod w v : (v < 2 ^ N.of_nat w)%N -> sint w v mod 2 ^ Z.of_nat w = Z.of_N v.
@@ -158,9 +158,11 @@ Lemma sint_neg_iff w v :
 Proof.
   intro Hv. rewrite sint_unfold.
   assert (B : Z.of_N v < 2 ^ Z.of_nat (S w)) by (rewrite <- of_N_pow2; lia).
-  destruct (N.ltb_spec v (2 ^ N.of_nat w)) as [L|L]; destruct (N.leb_spec (2 ^ N.of_nat w) v) as [L'|L']; try lia.
-  - apply Z.ltb_ge. lia.
-  - apply Z.ltb_lt. lia.
+  destruct (N.ltb_spec v (2 ^ N.of_nat w)) as [L|L].
+  - replace (2 ^ N.of_nat w <=? v)%N with false by (symmetry; apply N.leb_gt; exact L).
+    apply Z.ltb_ge. lia.
+  - replace (2 ^ N.of_nat w <=? v)%N with true by (symmetry; apply N.leb_le; exact L).
+    apply Z.ltb_lt. lia.
 Qed.
 
 Lemma bv_of_Z_eqm w a b : a mod 2 ^ Z.of_nat w = b mod 2 ^ Z.of_nat w -> bv_of_Z w a = bv_of_Z w b.
